@@ -12,7 +12,7 @@ from .drivers import flat2
 PROP = "C16"
 A_ = "gaussian_toolbox/approximate_conditional.py"
 FEATURE = ["LRBFGaussianConditional", "LSEMGaussianConditional"]
-HETERO = ["HeteroscedasticExpConditional", "HeteroscedasticCoshM1Conditional"]
+HETERO = ["HeteroscedasticExpConditional", "HeteroscedasticCoshM1Conditional", "HeteroscedasticHeavisideConditional", "HeteroscedasticReLUConditional"]
 
 
 # ------------------------------------------------------------------ reference expectations (written from the mathematics)
@@ -155,6 +155,15 @@ def hetero_noise_reference(c, cls, px, Dk):
     lin = nf.add(nf.einsum("kx,x->k", w, mx0), w0)
     quad = nf.scale(nf.einsum("kx,xz,kz->k", w, Sx0, w), D(1) / 2)
     from ..dim import LOG2
+    if "Heaviside" in cls or "ReLU" in cls:
+        # h = w'x + w0 ~ N(m, s^2):  E[step(h)] = Phi(m/s),  E[max(h,0)] = m Phi(m/s) + s phi(m/s)
+        from ..intrinsics import elementwise_inf
+        s2 = nf.einsum("kx,xz,kz->k", w, Sx0, w)
+        z = nf.mul(lin, nf.elementwise("Sqrt", nf.elementwise("Recip", s2)))
+        Ph = elementwise_inf("Phi", z)
+        if "Heaviside" in cls:
+            return Ph
+        return nf.add(nf.mul(lin, Ph), nf.mul(nf.elementwise("Sqrt", s2), elementwise_inf("phi", z)))
     if "Exp" in cls:
         return nf.elementwise("Exp", nf.add(lin, quad))
     ep = nf.elementwise("Exp", nf.add(nf.add(lin, quad), nf.const(-LOG2)))
@@ -164,6 +173,7 @@ def hetero_noise_reference(c, cls, px, Dk):
 
 def hetero_moments_ob(cls):
     def run():
+        nf.ST.generic_nonzero = True
         I = build.new_interp()
         c = make_approx(I, cls, "c")
         Dy, Dx, Dk = sym("Dy"), sym("Dx"), sym("Dk")
@@ -191,6 +201,7 @@ def hetero_moments_ob(cls):
 def assembly_ob(cls):
     """joint / marginal / conditional are assembled from exactly the matched moments (blocks, x first) and constructed from (Sigma, mu) only."""
     def run():
+        nf.ST.generic_nonzero = True
         I = build.new_interp()
         c = make_approx(I, cls, "c")
         Dy, Dx = sym("Dy"), sym("Dx")
@@ -320,8 +331,9 @@ def obligations(tier):
     return obs
 
 
-FLOORS = {"group:moments": 4, "group:assembly": 4, "group:kernel": 4, "group:hetero": 2}
+FLOORS = {"group:moments": 6, "group:assembly": 6, "group:kernel": 4, "group:hetero": 4}
 LEVEL = "other"
 EXPLANATION = ("Partial: the ASSEMBLY of the matched moments is decided (E[y], Cov[y], E[yx'] as polynomials in kernel / noise expectations computed by independent "
-               "reference formulas; block layout and kernel layouts; link wiring; unit-height kernels; heteroscedastic conditional covariance). Step / rectified-linear "
-               "links (truncated-Gaussian expectations through vmap) and the claim that each expectation equals the true integral of the non-linear model are NOT decided.")
+               "reference formulas; block layout and kernel layouts; link wiring; unit-height kernels; heteroscedastic conditional covariance) for all four links "
+               "(exp, cosh-1: closed-form E exp(+-h); step, rectified linear: Phi / phi closed forms of the one-dimensional truncated Gaussian, with misc.normal_cdf/pdf "
+               "summarised as Phi/phi). The claim that each kernel expectation equals the true integral of the non-linear model (quadrature level) is NOT decided.")
